@@ -508,10 +508,21 @@ func runHistory(cc crashCase, scratch string) *world {
 type mismatch struct {
 	comp string // block-store | world-state | utxo-store | tx-index | consensus-status
 	dir  string // behind | ahead | differs
+	fam  string // utxo-store only: record family (key-images | key-images(earlier-blocks) | outputs | token_muos | btio)
 	what string
 }
 
-func (m mismatch) String() string { return m.comp + "-" + m.dir + ": " + m.what }
+// class is the part of the violation key that names WHAT deviates: component, direction and (utxo store) record family.
+// Every family has its own key so that a recorded finding about one family cannot hide a deviation of another family
+// in the same crash window.
+func (m mismatch) class() string {
+	if m.fam != "" {
+		return m.comp + "-" + m.dir + ":" + m.fam
+	}
+	return m.comp + "-" + m.dir
+}
+
+func (m mismatch) String() string { return m.class() + ": " + m.what }
 
 func prefixEq(a, b []string) bool {
 	if len(a) != len(b) {
@@ -528,7 +539,7 @@ func prefixEq(a, b []string) bool {
 // compare checks every component of c against height h of the crash-free run.
 func (w *world) compare(c *minichain.Chain, h uint64) (ms []mismatch) {
 	if h > w.L {
-		return []mismatch{{"block-store", "ahead", fmt.Sprintf("height %d beyond the history", h)}}
+		return []mismatch{{comp: "block-store", dir: "ahead", what: fmt.Sprintf("height %d beyond the history", h)}}
 	}
 	o := observe(c)
 	ref := w.refs[h]
@@ -536,7 +547,7 @@ func (w *world) compare(c *minichain.Chain, h uint64) (ms []mismatch) {
 	if !prefixEq(o.Block, ref.Block) {
 		for k := range o.Block {
 			if k >= len(ref.Block) || o.Block[k] != ref.Block[k] {
-				ms = append(ms, mismatch{"block-store", "differs", fmt.Sprintf("records of block %d: %s", k+1, o.Block[k])})
+				ms = append(ms, mismatch{comp: "block-store", dir: "differs", what: fmt.Sprintf("records of block %d: %s", k+1, o.Block[k])})
 				break
 			}
 		}
@@ -555,13 +566,21 @@ func (w *world) compare(c *minichain.Chain, h uint64) (ms []mismatch) {
 				break
 			}
 		}
-		ms = append(ms, mismatch{"world-state", dir, fmt.Sprintf("block store at %d, state %s%s, crash-free run at %d has %s", h, o.State, extra, h, ref.State)})
+		ms = append(ms, mismatch{comp: "world-state", dir: dir, what: fmt.Sprintf("block store at %d, state %s%s, crash-free run at %d has %s", h, o.State, extra, h, ref.State)})
 	}
-	// spent key images
+	// UTXO store, one record family at a time; within a family one mismatch per direction
+	reported := map[string]bool{}
+	utxo := func(fam, dir, what string) {
+		if !reported[fam+dir] {
+			reported[fam+dir] = true
+			ms = append(ms, mismatch{comp: "utxo-store", dir: dir, fam: fam, what: what})
+		}
+	}
+	// family 1: spent key images (utxo database, key = key image)
 	for _, im := range w.images {
 		spent := false
 		if p, v := vk.Catch(func() { spent = c.KeyImageSpent(im.ki) }); p {
-			ms = append(ms, mismatch{"utxo-store", "differs", fmt.Sprintf("HaveTxKeyimgAsSpent panics: %v", v)})
+			utxo("key-images", "differs", fmt.Sprintf("HaveTxKeyimgAsSpent panics: %v", v))
 			break
 		}
 		if spent != (im.block <= h) {
@@ -569,39 +588,58 @@ func (w *world) compare(c *minichain.Chain, h uint64) (ms []mismatch) {
 			if spent {
 				dir = "ahead"
 			}
-			ms = append(ms, mismatch{"utxo-store", dir, fmt.Sprintf("key image %x of block %d: spent=%v with the block store at %d", im.ki[:4], im.block, spent, h)})
-			break
+			// the start-up repair (fix 1c274d5) re-records the key images of the LAST stored block only: those of earlier blocks
+			// (they can only be missing after a power loss) are a family of their own
+			fam := "key-images"
+			if im.block < h {
+				fam = "key-images(earlier-blocks)"
+			}
+			utxo(fam, dir, fmt.Sprintf("key image %x of block %d: spent=%v with the block store at %d", im.ki[:4], im.block, spent, h))
 		}
 	}
-	// output index
+	// family 2: output records (utxo_output database, key = sequence number), read by key, independently of the maximum
 	want := int64(-1)
-	for _, od := range w.outputs {
+	for seq, od := range w.outputs {
 		if od.block <= h {
 			want++
 		}
+		var got *types.UTXOOutputData
+		var err error
+		if p, v := vk.Catch(func() { got, err = c.UtxoStore().GetUtxoOutput(common.EmptyAddress, uint64(seq)) }); p {
+			utxo("outputs", "differs", fmt.Sprintf("GetUtxoOutput(%d) panics: %v", seq, v))
+			break
+		}
+		present := err == nil && got != nil
+		switch {
+		case od.block <= h && !present:
+			utxo("outputs", "behind", fmt.Sprintf("output %d (block %d) not readable with the block store at %d (%v)", seq, od.block, h, err))
+		case od.block <= h && !bytes.Equal(enc(got), od.bz):
+			utxo("outputs", "differs", fmt.Sprintf("output %d (block %d) differs from the output of the crash-free run", seq, od.block))
+		case od.block > h && present:
+			utxo("outputs", "ahead", fmt.Sprintf("output %d (block %d) stored with the block store at %d", seq, od.block, h))
+		}
 	}
+	// family 3: maximum output sequence (utxo database, token_muos_<token>; loaded into memory at start-up)
 	if got := c.MaxUtxoOutputSeq(); got != want {
 		dir := "behind"
 		if got > want {
 			dir = "ahead"
 		}
-		ms = append(ms, mismatch{"utxo-store", dir, fmt.Sprintf("max output sequence %d, outputs of blocks <= %d end at %d", got, h, want)})
-	} else {
-		for seq := int64(0); seq <= want; seq++ {
-			od, err := c.UtxoStore().GetUtxoOutput(common.EmptyAddress, uint64(seq))
-			if err != nil || !bytes.Equal(enc(od), w.outputs[seq].bz) {
-				ms = append(ms, mismatch{"utxo-store", "differs", fmt.Sprintf("output %d (block %d) unreadable or different (%v)", seq, w.outputs[seq].block, err)})
-				break
+		utxo("token_muos", dir, fmt.Sprintf("max output sequence %d, outputs of blocks <= %d end at %d", got, h, want))
+	}
+	// family 4: per-block first output sequences (utxo database, btio_<height>)
+	if !prefixEq(o.Btio, ref.Btio) {
+		dir := "differs"
+		for k := range o.Btio {
+			if k < len(ref.Btio) && o.Btio[k] == "" && ref.Btio[k] != "" {
+				dir = "behind"
 			}
 		}
-		if !prefixEq(o.Btio, ref.Btio) {
-			dir := "differs"
-			for k := range o.Btio {
-				if k < len(ref.Btio) && o.Btio[k] == "" && ref.Btio[k] != "" {
-					dir = "behind"
-				}
-			}
-			ms = append(ms, mismatch{"utxo-store", dir, fmt.Sprintf("per-block first output sequences (btio_<h>) %q, crash-free %q", o.Btio, ref.Btio)})
+		utxo("btio", dir, fmt.Sprintf("per-block first output sequences (btio_<h>) %q, crash-free %q", o.Btio, ref.Btio))
+	}
+	for k := h + 1; k <= w.L; k++ {
+		if m := c.UtxoStore().GetBlockTokenUtxoOutputSeq(k); len(m) > 0 {
+			utxo("btio", "ahead", fmt.Sprintf("btio_%d stored with the block store at %d", k, h))
 		}
 	}
 	// transaction index, through the block store's own lookups (what the RPC layer serves)
@@ -614,22 +652,22 @@ func (w *world) compare(c *minichain.Chain, h uint64) (ms []mismatch) {
 			tx, e = bs.GetTx(t.hash)
 			rcpt, _, _, _ = bs.GetTransactionReceipt(t.hash)
 		}); p {
-			ms = append(ms, mismatch{"tx-index", "differs", fmt.Sprintf("lookup of tx %x panics: %v", t.hash[:4], v)})
+			ms = append(ms, mismatch{comp: "tx-index", dir: "differs", what: fmt.Sprintf("lookup of tx %x panics: %v", t.hash[:4], v)})
 			break
 		}
 		if t.block > h && (e != nil || tx != nil || rcpt != nil) {
-			ms = append(ms, mismatch{"tx-index", "ahead", fmt.Sprintf("tx %x of block %d with the block store at %d: GetTx returns entry=%v tx=%v, GetTransactionReceipt returns receipt=%v",
+			ms = append(ms, mismatch{comp: "tx-index", dir: "ahead", what: fmt.Sprintf("tx %x of block %d with the block store at %d: GetTx returns entry=%v tx=%v, GetTransactionReceipt returns receipt=%v",
 				t.hash[:4], t.block, h, e != nil, tx != nil, rcpt != nil)})
 			break
 		}
 		if t.block <= h {
 			if e == nil || tx == nil || rcpt == nil {
-				ms = append(ms, mismatch{"tx-index", "behind", fmt.Sprintf("tx %x of block %d with the block store at %d: GetTx returns entry=%v tx=%v, GetTransactionReceipt returns receipt=%v",
+				ms = append(ms, mismatch{comp: "tx-index", dir: "behind", what: fmt.Sprintf("tx %x of block %d with the block store at %d: GetTx returns entry=%v tx=%v, GetTransactionReceipt returns receipt=%v",
 					t.hash[:4], t.block, h, e != nil, tx != nil, rcpt != nil)})
 				break
 			}
 			if e.BlockHeight != t.block || e.Index != t.index || e.BlockHash != w.hashes[t.block] || tx.Hash() != t.hash {
-				ms = append(ms, mismatch{"tx-index", "differs", fmt.Sprintf("tx %x: entry %d/%d, expected %d/%d", t.hash[:4], e.BlockHeight, e.Index, t.block, t.index)})
+				ms = append(ms, mismatch{comp: "tx-index", dir: "differs", what: fmt.Sprintf("tx %x: entry %d/%d, expected %d/%d", t.hash[:4], e.BlockHeight, e.Index, t.block, t.index)})
 				break
 			}
 		}
@@ -643,7 +681,7 @@ func (w *world) compare(c *minichain.Chain, h uint64) (ms []mismatch) {
 		} else if mem > h || disk > h {
 			dir = "ahead"
 		}
-		ms = append(ms, mismatch{"consensus-status", dir, fmt.Sprintf("block store at %d, status %s, crash-free %s", h, o.Status, ref.Status)})
+		ms = append(ms, mismatch{comp: "consensus-status", dir: dir, what: fmt.Sprintf("block store at %d, status %s, crash-free %s", h, o.Status, ref.Status)})
 	}
 	return ms
 }
@@ -772,10 +810,22 @@ func (w *world) replay(cp crashPoint) map[string]interface{} {
 
 // verdict of the oracle on one crash state.
 type verdict struct {
-	outcome     string // what the restart did (non-vacuity statistics)
-	class       string // "" = held; otherwise the violated part of the oracle (component and direction / normalised error)
+	outcome     string   // what the restart did (non-vacuity statistics)
+	classes     []string // empty = held; otherwise every violated part of the oracle (component, direction, record family / normalised error)
 	what        string
 	recommitted int // blocks committed on the restarted node
+}
+
+// classesOf turns the mismatches of one comparison into verdict classes (one per component / direction / family).
+func classesOf(prefix string, ms []mismatch) (out []string) {
+	seen := map[string]bool{}
+	for _, m := range ms {
+		if c := prefix + m.class(); !seen[c] {
+			seen[c] = true
+			out = append(out, c)
+		}
+	}
+	return
 }
 
 // where names the position of the crash in the commit sequence (part of the violation key in the process-crash model).
@@ -811,7 +861,7 @@ func (w *world) evaluate(cp crashPoint, curFile string) (v verdict) {
 	stateBefore := dbDigest(dbs["state"])
 	rc, err := w.ref.RestartOnCopies(dbs, dir)
 	if err != nil {
-		return verdict{outcome: "restart-fails", class: "restart-fails:" + normalize(err.Error()), what: "the node does not start: " + err.Error()}
+		return verdict{outcome: "restart-fails", classes: []string{"restart-fails:" + normalize(err.Error())}, what: "the node does not start: " + err.Error()}
 	}
 	defer rc.Close()
 	h := rc.Height()
@@ -823,7 +873,7 @@ func (w *world) evaluate(cp crashPoint, curFile string) (v verdict) {
 		v.outcome += " state-rolled-back"
 	}
 	if h < uint64(acked) {
-		v.class, v.what = "acknowledged-block-lost", fmt.Sprintf("%d blocks were acknowledged, the restarted node is at height %d", acked, h)
+		v.classes, v.what = []string{"acknowledged-block-lost"}, fmt.Sprintf("%d blocks were acknowledged, the restarted node is at height %d", acked, h)
 		return
 	}
 	join := func(ms []mismatch) string {
@@ -835,7 +885,7 @@ func (w *world) evaluate(cp crashPoint, curFile string) (v verdict) {
 	}
 	if ms := w.compare(rc, h); len(ms) > 0 {
 		v.outcome += " inconsistent"
-		v.class = ms[0].comp + "-" + ms[0].dir
+		v.classes = classesOf("", ms)
 		v.what = fmt.Sprintf("after restart the block store is at height %d (acknowledged: %d) but: %s", h, acked, join(ms))
 		return
 	}
@@ -856,7 +906,7 @@ func (w *world) evaluate(cp crashPoint, curFile string) (v verdict) {
 		}
 		if err := rc.CommitWithSeen(b, parts, w.ref.BlockStore().LoadSeenCommit(k)); err != nil {
 			v.outcome += " cannot-continue"
-			v.class = "history-cannot-continue:" + normalize(err.Error())
+			v.classes = []string{"history-cannot-continue:" + normalize(err.Error())}
 			v.what = fmt.Sprintf("restarted at height %d consistently, but block %d of the history is refused: %v", h, k, err)
 			return
 		}
@@ -864,7 +914,7 @@ func (w *world) evaluate(cp crashPoint, curFile string) (v verdict) {
 	}
 	if ms := w.compare(rc, w.L); len(ms) > 0 {
 		v.outcome += " final-differs"
-		v.class = "final-state-differs:" + ms[0].comp + "-" + ms[0].dir
+		v.classes = classesOf("final-state-differs:", ms)
 		v.what = fmt.Sprintf("restarted at height %d consistently and committed blocks %d..%d, but the final state differs from the crash-free run: %s", h, h+1, w.L, join(ms))
 	}
 	return
@@ -881,17 +931,30 @@ func (w *world) points(quick bool) (pts []crashPoint) {
 	return powerLossPoints(w.evs, w.tap.rec.Log, 4)
 }
 
-// component is the first part of a verdict class (used for power-loss keys, where direction and message vary with depth).
+// component reduces a verdict class to what deviates without the direction / message: component and record family
+// (used for power-loss keys, where direction and message vary with the depth of the loss).
 func component(class string) string {
 	for _, c := range []string{"restart-fails", "history-cannot-continue", "final-state-differs", "acknowledged-block-lost"} {
 		if strings.HasPrefix(class, c) {
 			return c
 		}
 	}
-	if i := strings.LastIndexByte(class, '-'); i > 0 {
-		return class[:i]
+	first, fam := class, ""
+	if i := strings.IndexByte(class, ':'); i >= 0 {
+		first, fam = class[:i], class[i:]
 	}
-	return class
+	if i := strings.LastIndexByte(first, '-'); i > 0 {
+		first = first[:i]
+	}
+	return first + fam
+}
+
+func components(classes []string) map[string]bool {
+	m := map[string]bool{}
+	for _, c := range classes {
+		m[component(c)] = true
+	}
+	return m
 }
 
 func runCrashCase(cc crashCase, quick bool, deadline time.Time) (res crashResult) {
@@ -940,16 +1003,16 @@ func runCrashCase(cc crashCase, quick bool, deadline time.Time) (res crashResult
 	}
 	// power-loss model: per prefix the lossless state is evaluated first. If it already violates the oracle (a process-crash
 	// finding), the lossy variants of that prefix are not expanded (their verdicts could not be told apart from it). Otherwise
-	// a lossy state that violates is a power-loss finding; a two-device loss is attributed to one device when losing that
-	// device alone (same depth) gives the same verdict.
-	base := ""
-	single := map[string]string{}
+	// every deviation of a lossy state is a power-loss finding; in a two-device loss each deviation is attributed to the
+	// device whose loss alone (same depth) shows the same deviation, to both if neither does.
+	baseBad := false
+	single := map[string]map[string]bool{}
 	for i, cp := range pts {
 		if time.Now().After(deadline) {
 			res.Capped = len(pts) - i
 			break
 		}
-		if cc.Model == "power" && len(cp.lostBy) > 0 && base != "" {
+		if cc.Model == "power" && len(cp.lostBy) > 0 && baseBad {
 			res.Points["power-loss states not expanded (the lossless state already violates)"]++
 			continue
 		}
@@ -959,47 +1022,54 @@ func runCrashCase(cc crashCase, quick bool, deadline time.Time) (res crashResult
 		res.Recommitted += v.recommitted
 		if cc.Model == "process" {
 			res.Outcomes[v.outcome]++
-			if v.class != "" {
-				report(v.class+":"+w.where(cp), cp, v)
+			for _, c := range v.classes {
+				report(c+":"+w.where(cp), cp, v)
 			}
 			continue
 		}
 		if len(cp.lostBy) == 0 {
-			base = v.class
-			single = map[string]string{}
+			baseBad = len(v.classes) > 0
+			single = map[string]map[string]bool{}
 			res.Outcomes["no loss: "+v.outcome]++
 			continue
 		}
+		ids := components(v.classes)
 		if len(cp.lostBy) == 1 {
-			single[cp.lostBy[0].String()] = v.class
+			single[cp.lostBy[0].String()] = ids
 		}
-		if v.class == "" {
+		if len(ids) == 0 {
 			res.Outcomes["loss tolerated"]++
 			continue
 		}
-		devs := cp.lostBy[0].dev
-		if len(cp.lostBy) == 2 {
-			a, b := cp.lostBy[0], cp.lostBy[1]
-			sa, sb := single[a.String()], single[b.String()]
-			switch {
-			case sa == v.class, sa != "" && sb == "", sa != "" && component(sa) == component(v.class):
-				devs = a.dev
-			case sb == v.class, sb != "" && sa == "", sb != "" && component(sb) == component(v.class):
-				devs = b.dev
-			default:
-				devs = a.dev + "+" + b.dev
-			}
+		var sorted []string
+		for id := range ids {
+			sorted = append(sorted, id)
 		}
-		res.Outcomes["loss of "+devs+": "+component(v.class)]++
-		report("power-loss:unsynced-writes-lost-on="+devs+":"+component(v.class), cp, v)
+		sort.Strings(sorted)
+		for _, id := range sorted {
+			devs := cp.lostBy[0].dev
+			if len(cp.lostBy) == 2 {
+				a, b := cp.lostBy[0], cp.lostBy[1]
+				switch inA, inB := single[a.String()][id], single[b.String()][id]; {
+				case inA:
+					devs = a.dev
+				case inB:
+					devs = b.dev
+				default:
+					devs = a.dev + "+" + b.dev
+				}
+			}
+			res.Outcomes["loss of "+devs+": "+id]++
+			report("power-loss:unsynced-writes-lost-on="+devs+":"+id, cp, v)
+		}
 	}
 	if cc.Model == "process" && strings.ContainsRune(cc.Hist, 'E') && !time.Now().After(deadline) {
 		outcome, v := w.unseenEvidence(cur)
 		res.Points["commit by a node that never received the evidence"]++
 		res.Outcomes["evidence not received: "+outcome]++
 		res.Restarts++
-		if v.class != "" {
-			key := v.class + ":after-panic-in-commit:block-carries-evidence-the-node-never-received"
+		for _, c := range v.classes {
+			key := c + ":after-panic-in-commit:block-carries-evidence-the-node-never-received"
 			res.VioCount[key]++
 			res.Vios = append(res.Vios, vio{Key: key, What: fmt.Sprintf("%s: %s", w.cc, v.what), Replay: map[string]interface{}{"case": cc.String(),
 				"scenario": "a second node commits the blocks of the history without having received the duplicate-vote evidence; it is restarted on what reached its devices when Commit panicked"}})
@@ -1063,32 +1133,32 @@ func (w *world) unseenEvidence(curFile string) (outcome string, v verdict) {
 		}
 		rc, rerr := w.ref.RestartOnCopies(rec.Materialize(rec.Len()), dir)
 		if rerr != nil {
-			return "commit panics, restart fails", verdict{class: "restart-fails:" + normalize(rerr.Error()),
+			return "commit panics, restart fails", verdict{classes: []string{"restart-fails:" + normalize(rerr.Error())},
 				what: fmt.Sprintf("the commit of block %d (DuplicateVoteEvidence the node never received) panics (%v) after the block store was written; the restarted node does not start: %v", k, cerr, rerr)}
 		}
 		defer rc.Close()
 		h := rc.Height()
 		if h+1 < k {
-			return "commit panics, block lost", verdict{class: "acknowledged-block-lost", what: fmt.Sprintf("%d blocks acknowledged, restarted at %d", k-1, h)}
+			return "commit panics, block lost", verdict{classes: []string{"acknowledged-block-lost"}, what: fmt.Sprintf("%d blocks acknowledged, restarted at %d", k-1, h)}
 		}
 		if ms := w.compare(rc, h); len(ms) > 0 {
-			return "commit panics, restart inconsistent", verdict{class: ms[0].comp + "-" + ms[0].dir,
+			return "commit panics, restart inconsistent", verdict{classes: classesOf("", ms),
 				what: fmt.Sprintf("the commit of block %d panics (%v); after restart the block store is at height %d but: %s", k, cerr, h, join(ms))}
 		}
 		for j := h + 1; j <= w.L; j++ {
 			b, parts := load(j)
 			if err := rc.CommitWithSeen(b, parts, w.ref.BlockStore().LoadSeenCommit(j)); err != nil {
-				return "commit panics, restart consistent, cannot continue", verdict{class: "history-cannot-continue:" + normalize(err.Error()),
+				return "commit panics, restart consistent, cannot continue", verdict{classes: []string{"history-cannot-continue:" + normalize(err.Error())},
 					what: fmt.Sprintf("the commit of block %d panics (%v); restarted consistently at %d, but block %d is refused: %v", k, cerr, h, j, err)}
 			}
 		}
 		if ms := w.compare(rc, w.L); len(ms) > 0 {
-			return "commit panics, final differs", verdict{class: "final-state-differs:" + ms[0].comp + "-" + ms[0].dir, what: join(ms)}
+			return "commit panics, final differs", verdict{classes: classesOf("final-state-differs:", ms), what: join(ms)}
 		}
 		return "commit panics, node recovers", verdict{}
 	}
 	if ms := w.compare(victim, w.L); len(ms) > 0 {
-		return "no panic, state differs", verdict{class: "final-state-differs:" + ms[0].comp + "-" + ms[0].dir, what: "a node that never received the evidence ends in a different state: " + join(ms)}
+		return "no panic, state differs", verdict{classes: classesOf("final-state-differs:", ms), what: "a node that never received the evidence ends in a different state: " + join(ms)}
 	}
 	return "no panic, same state", verdict{}
 }
@@ -1156,8 +1226,8 @@ func replayCrash(r *vk.Run) {
 		if rp.Crash == "" { // the commit-panic scenario
 			outcome, v := w.unseenEvidence("")
 			fmt.Printf("%s: %s\n", cc, outcome)
-			if v.class != "" {
-				r.Violation(v.class+":after-panic-in-commit:block-carries-evidence-the-node-never-received", v.what, full)
+			for _, c := range v.classes {
+				r.Violation(c+":after-panic-in-commit:block-carries-evidence-the-node-never-received", v.what, full)
 			}
 			return
 		}
@@ -1166,11 +1236,11 @@ func replayCrash(r *vk.Run) {
 				continue
 			}
 			v := w.evaluate(cp, "")
-			fmt.Printf("%s [%s]: %s; verdict: %q %s\n", cc, cp, v.outcome, v.class, v.what)
-			if v.class != "" {
-				key := v.class + ":" + w.where(cp)
+			fmt.Printf("%s [%s]: %s; verdict: %q %s\n", cc, cp, v.outcome, v.classes, v.what)
+			for _, c := range v.classes {
+				key := c + ":" + w.where(cp)
 				if cc.Model == "power" {
-					key = "power-loss:" + v.class
+					key = "power-loss:" + component(c)
 				}
 				r.Violation(key, v.what, full)
 			}
